@@ -272,6 +272,14 @@ func (w *inotify) register(path string, flags uint32, recurse bool) error {
 			return nil, err
 		}
 
+		if existing != nil && existing.wd != uint32(wd) {
+			// The path now names a different file than the one we were
+			// watching under it; stop watching the old file. This fails with
+			// EINVAL if the kernel already dropped that watch because the
+			// old file is gone, which is fine.
+			unix.InotifyRmWatch(w.fd, existing.wd)
+		}
+
 		if e, ok := w.watches.wd[uint32(wd)]; ok {
 			return e, nil
 		}
